@@ -8,7 +8,7 @@ import asyncio
 from vt import explore
 from vt.env.iprig import IpRig, std_handler
 
-BEHAVIOURS = ["ok", "close-m1", "http-400", "wrong-id", "bad-sig", "auth-error", "garbage", "m4-auth-error", "close-m3", "busy-error", "http-470", "ok-bad-subscribe-reply", "ok-close-on-subscribe", "ok-reset-on-subscribe", "ok+slow-close", "mute", "mute-m3"]
+BEHAVIOURS = ["ok", "close-m1", "http-400", "wrong-id", "bad-sig", "auth-error", "garbage", "m4-auth-error", "close-m3", "busy-error", "http-470", "ok-bad-subscribe-reply", "ok-close-on-subscribe", "ok-reset-on-subscribe", "ok+slow-close"]  # "mute" / "mute-m3" (a silent accessory) exist too but are named explicitly by the configurations that want them: the retry-gap oracle measures between attempt STARTS and an attempt against a silent accessory lasts 30 s
 
 
 def mk_description(hosts, port=51826, c=1, s=1, acc_id="aa:bb:cc:dd:ee:ff"):
